@@ -167,11 +167,15 @@ func (c *CaseRec) noteTx(t *ledger.Transaction) {
 		}
 		k := fmt.Sprintf("%d|%s|%s|%s", j.OutputIndex, j.TransactionId, j.PublicKey, j.Signature)
 		if _, ok := c.sigs[k]; !ok {
-			ok := in.VerifySignature() == nil
+			ok := SigValid(&j)
 			c.sigs[k] = sx(u64(uint64(j.OutputIndex)), atom(j.TransactionId), atom(j.PublicKey), atom(j.Signature), b01(ok))
 		}
 		if _, ok := c.addrs[j.PublicKey]; !ok {
-			c.addrs[j.PublicKey] = sx(atom(j.PublicKey), atom(in.Address()))
+			a, okA := AddrOf(j.PublicKey)
+			if !okA {
+				a = in.Address()
+			}
+			c.addrs[j.PublicKey] = sx(atom(j.PublicKey), atom(a))
 		}
 	}
 }
